@@ -286,3 +286,17 @@ Example ex_drain_after_hypotheses :
   let h := fst (run c init_state ex_drain_events) in
   times_le 30 ex_drain_events /\ tick_schedule c (next_bound c 30) ex_drain_ticks.
 Proof. split; [repeat constructor; vm_compute; discriminate|vm_compute; repeat split; discriminate]. Qed.
+
+Check reachable_dl_below : forall c T evs, times_le T evs ->
+  dl_below (next_bound c T) (fst (run c init_state evs)).
+Check drain_after : forall c evs ticks T,
+  fixed_cfg c -> fresh_run c init_state evs -> times_le T evs ->
+  let h := fst (run c init_state evs) in
+  tick_schedule c (next_bound c T) ticks -> fresh_run c h ticks ->
+  drain_bound c h <= length ticks ->
+  let h' := fst (run c h ticks) in
+  (active h' = [] /\ pending h' = [] /\ challenges h' = [] /\ nmap h' = [] /\ expected h' = []) /\
+  forall x, In x (ext_rids h) -> In (x, true) (run_tagged c h ticks).
+Print Assumptions reachable_dl_below.
+Print Assumptions drain_after.
+Print Assumptions ex_drain_after_hypotheses.
